@@ -234,6 +234,20 @@ def shown_lines(ctx, res, rule):
     # (c) numbering
     incl = [x for x in T.nodes(b["tree"], "call") if T.render(x).startswith("std::ops::RangeInclusive::new(")]
     okc = len(incl) == 1 and [T.render(a_) for a_ in incl[0]["args"]] == ["line_range.0", "line_range.1"]
+    if not okc and len(incl) == 1 and all(T.local_of(T.peel(a_)) is not None for a_ in incl[0]["args"]):
+        # `Some((first, last)) => (first..=last)`: the two components of the line range under their own names
+        ab = [T.local_of(T.peel(a_)) for a_ in incl[0]["args"]]
+
+        def names_pair(pat, scrut):
+            return T.render(scrut) == "line_range" and any(q.get("p") == "tuple" and [x.get("id") for x in q.get("pats", []) if x.get("p") == "bind"] == ab and len(q.get("pats", [])) == 2
+                                                           for q in T.pat_nodes(pat))
+        for x in T.nodes(b["tree"]):
+            if x.get("k") == "match" and any(names_pair(a_["pat"], x["scrut"]) for a_ in x["arms"]):
+                okc = True
+            if x.get("k") == "let" and x.get("init") is not None and names_pair(x["pat"], x["init"]):
+                okc = True
+            if x.get("k") == "let_cond" and names_pair(x["pat"], x["e"]):
+                okc = True
     nexts = [x for x in T.nodes(b["tree"], "mcall") if x["name"] == "next" and T.local_of(T.peel_ref(x["recv"])) is not None]
     text_ids = {T.local_of(T.peel_ref(x["recv"])) for x in T.nodes(b["tree"], "mcall") if x["name"] == "push_str"
                 and any(y.get("k") == "index" and T.render(T.peel_ref(y["base"])) == cname for y in T.nodes(x["args"][0]))} - frame_ids(b)
